@@ -184,6 +184,29 @@ pub fn drive(args: &[String]) {
             }
         }
     }
+    // (d) the predicates alone on larger D-sets: every generated D-set with 6..=preds_max (2-D) / 5..=preds_max-2 (3-D)
+    // chambers in its own and in random numberings, and 2-sheeted gauge covers (non-trivial odd/even cycle structure)
+    let pmax = arg_usize(args, "--preds-max", 0);
+    if pmax > 0 {
+        use rust_dsymbols::generators::dset_generators::DSets;
+        let pred_json = |ds: &PartialDSet| -> Value {
+            let mut reps = serde_json::Map::new();
+            let one = |d: &dyn Fn() -> Value| wrap(catch(|| d()));
+            reps.insert("PartialDSet".into(), one(&|| json!({"conn": ds.is_connected(), "compl": ds.is_complete(), "loopl": ds.is_loopless(), "wori": ds.is_weakly_oriented(), "ori": ds.is_oriented()})));
+            let ss: SimpleDSet = ds.clone().into();
+            reps.insert("SimpleDSet".into(), one(&|| json!({"conn": ss.is_connected(), "compl": ss.is_complete(), "loopl": ss.is_loopless(), "wori": ss.is_weakly_oriented(), "ori": ss.is_oriented()})));
+            json!({"ev": "preds", "sym": dset_json(ds), "reps": Value::Object(reps)})
+        };
+        for (dim, lo, hi) in [(2usize, 6usize, pmax), (3, 5, pmax.saturating_sub(2))] {
+            for dset in DSets::new(dim, hi) {
+                if dset.size() < lo { continue; }
+                let n = dset.size();
+                let p0 = build_set(n, dim, |i, d| dset.op(i, d));
+                sink.emit(pred_json(&p0));
+                for _ in 0..arg_usize(args, "--preds-renumberings", 3) { sink.emit(pred_json(&renumber_set(&p0, &rand_perm(n, &mut rng)))); }
+            }
+        }
+    }
     sink.flush();
     println!("{}", json!({"events": sink.n}));
 }
